@@ -61,7 +61,13 @@ def make_da(L, kind, with_nan):
     import xarray as xr
     import hdc.algo  # noqa: F401  (registers the accessors)
     rng_vals = (np.arange(L * 2 * 3).reshape(L, 2, 3) * 1.5 - 4.0)
-    if with_nan:
+    if isinstance(with_nan, (tuple, list)):
+        # NaN cells at the given positions of the aggregated axis only (one pixel, and the whole slice of another)
+        rng_vals = rng_vals.copy()
+        for t0 in with_nan:
+            rng_vals[t0, 0, 1] = np.nan
+            rng_vals[t0, 1, :2] = np.nan
+    elif with_nan:
         rng_vals = rng_vals.copy()
         rng_vals[::2, 0, 1] = np.nan
         if L > 1:
@@ -236,6 +242,27 @@ def _task(task, p):
                              "expected_windows": ref_windows(4, 2, 2, 1)})
 
 
+def _nan_task(task, p):
+    """Where the missing cells sit relative to begin / end: every placement of one or two NaN positions on an axis of
+    6 steps x every on-axis begin / end (and the defaults) x n x sum / mean, on the time and on a numeric dimension."""
+    import itertools
+    L, kind = task
+    cache = {}
+    da, lab, *_ = make_da(L, kind, False)
+    cands = [None] + list(lab)
+    placements = [(t,) for t in range(L)] + list(itertools.combinations(range(L), 2))
+    k = 0
+    for nanpos in placements:
+        for n in (1, 2, 3, L):
+            for begin in cands:
+                for end in cands:
+                    for func in ("sum", "mean"):
+                        check_config(p, L, kind, tuple(nanpos), n, begin, end, None, func, cache)
+                        k += 1
+    p.count("iteragg", evaluations=k, states=k, transitions=k, traces_validated_against_impl=k, nontrivial=k)
+    p.note_add("nan_placements", len(placements))
+
+
 def dtypes(ctx):
     """Cubes of narrow integer and boolean dtypes: the sums are the arithmetic sums of the windows (no wrap in the
     cube's own dtype), the means their means, for every n / begin / end on a short axis."""
@@ -308,6 +335,7 @@ def run(ctx):
     tasks = [(L, kind, ctx.thorough()) for L in range(maxL, 0, -1) for kind in ("time", "numeric")]
     ctx.pmap(_task, tasks)
     ctx.note("max_axis_length", maxL)
+    ctx.pmap(_nan_task, [(6, "time"), (6, "numeric"), (4, "time"), (4, "numeric")])
     misc(ctx)
     dtypes(ctx)
 
@@ -317,7 +345,7 @@ def replay(sub, case, p):
         L, kind = case["L"], case["dim"]
         da, lab, before, after, mids, near = make_da(L, kind, False)
         cands = {str(c): c for c in [None] + list(lab) + mids + [before, after] + near}
-        check_config(p, L, kind, case["nan"], case["n"], cands[case["begin"]], cands[case["end"]], case["method"], case["func"], {})
+        check_config(p, L, kind, tuple(case["nan"]) if isinstance(case["nan"], list) else case["nan"], case["n"], cands[case["begin"]], cands[case["end"]], case["method"], case["func"], {})
     elif case.get("kind") == "dtypes":
         dtypes(p)
     else:
